@@ -72,7 +72,10 @@ def generate(seed, tier="quick"):
     clean = sub(seed, "clean").random() < 0.35
     # a file that the formatter would only change at its very edges (no final newline, blank lines at the start / end): not clean, to be left alone
     edge = sub(seed, "edge").choice([None, "no-final-newline", "trailing-blank-lines", "leading-blank-lines"]) if clean else None
-    return {"program": prog, "steps": steps, "driver": driver, "fmt": fmt, "clean": clean, "edge": edge}
+    # a share of the plugin histories approves through review answers: the categories of a step are the ones answered with yes, every other
+    # pending category is shown and declined ("other snapshots are preserved": a snapshot whose change was declined is not rewritten)
+    review = driver == "plugin" and sub(seed, "review").random() < 0.45
+    return {"program": prog, "steps": steps, "driver": driver, "fmt": fmt, "clean": clean, "edge": edge, "review": review}
 
 
 def is_clean(text):
@@ -124,7 +127,14 @@ def execute(case, ctx):
     cur = sim.to_bytes(files)
     for si, cats in enumerate(case["steps"]):
         flags = ",".join((["report"] if driver == "plugin" else []) + sorted(cats)) or None
-        new, res = sim.run_session(ctx, driver, cur, {"flags": flags, "fmt": fmt})
+        review = bool(case.get("review")) and driver == "plugin"
+        if review:
+            flags = "review"
+            new, res = sim.run_session(ctx, driver, cur, {"flags": "review", "answers": {c: c in cats for c in CATS}, "fmt": fmt})
+            flags = "review(yes=" + "+".join(sorted(cats)) + ")"
+            ctx.count("probe_review_session_with_declined_categories" if len(res.get("asked") or []) > len([a for a in res.get("asked") or [] if a[1]]) else "review_sessions")
+        else:
+            new, res = sim.run_session(ctx, driver, cur, {"flags": flags, "fmt": fmt})
         if not sim.session_completed(driver, res):
             out["discards"]["session-did-not-complete(C18)"] = 1
             return out
@@ -152,6 +162,8 @@ def execute(case, ctx):
                 viol("outside-untouched", "number-of-snapshot-calls-changed", f"step {si} {fn}: {len(osites)} -> {len(nsites)}")
                 continue
             changed = {i for i, (a, b) in enumerate(zip(osites, nsites)) if a.region_text != b.region_text}
+            if review:
+                declined_clause(case, cats, fn, osites, nsites, orders, changed, viol, f"step {si} {fn} {flags} fmt={fmt_tag(fmt)}", old_t, new_t)
             for name in ("external", "HasRepr"):
                 inserted = any(isinstance(n, ast.ImportFrom) and n.module == "inline_snapshot" and any(a.name == name for a in n.names) for n in ast.parse(new_t).body) and not \
                     any(isinstance(n, ast.ImportFrom) and n.module == "inline_snapshot" and any(a.name == name for a in n.names) for n in ast.parse(old_t).body)
@@ -201,6 +213,36 @@ def execute(case, ctx):
     return out
 
 
+def declined_clause(case, cats, fn, osites, nsites, orders, changed, viol, ctxt, old_t, new_t):
+    """review session, categories not answered with yes were declined: the snapshots those categories speak about are 'other snapshots'.
+    Only what follows from the meaning of a category alone is demanded (no model of the pending set):
+      create declined            -> an empty snapshot() stays empty (nothing but create ever fills one);
+      only create approved       -> an argument that exists (no inner snapshot(), not a s[key] parent) keeps its text;
+      at most update approved    -> an argument that exists keeps its value."""
+    yes = set(cats)
+    order = orders.get(fn) or []
+    fsites = next((f["sites"] for f in case["program"]["files"] if f["name"] == fn), {})
+    for i in sorted(changed):
+        a, b = osites[i], nsites[i]
+        site = fsites.get(order[i], {}) if i < len(order) else {}
+        detail = f"{ctxt}: snapshot #{i} (line {a.lineno}) {a.region_text[:200]!r} -> {b.region_text[:200]!r}\n--- before\n{old_t[:900]}\n--- after\n{new_t[:900]}"
+        if a.arg_text is None:
+            if "create" not in yes:
+                viol("declined-change-not-written", "empty-snapshot-filled-although-create-was-declined", detail)
+            continue
+        if "snapshot(" in a.region_text or site.get("op") == "item":
+            continue
+        if yes <= {"create"}:
+            viol("declined-change-not-written", "existing-argument-rewritten-although-only-create-was-approved", detail)
+        elif yes <= {"update"}:
+            try:
+                same = P.eval_arg(a.arg_text) == P.eval_arg(b.arg_text) if b.arg_text is not None else False
+            except Exception:
+                continue
+            if same is False:
+                viol("declined-change-not-written", "value-changed-although-only-update-was-approved", detail)
+
+
 def shrink(case):
     if len(case["steps"]) > 1:
         for i in range(len(case["steps"])):
@@ -211,5 +253,5 @@ def shrink(case):
         yield dict(case, fmt={"kind": "black"})
     if case.get("clean"):
         yield dict(case, clean=False)
-    if case["driver"] == "plugin":
+    if case["driver"] == "plugin" and not case.get("review"):
         yield dict(case, driver="inline")
